@@ -82,6 +82,10 @@ package verifspec
 //@   param info e
 //@   assigns nothing
 //@   ensures typeis(result, "*go/types.Signature") == hasSigType(key(e))
+//@ pure derefExpr(e int) bool
+//@ pure mayPanicDiv(e int) bool
+//@ pure singleValueAssert(e int) bool
+//@ pure mayPanicIndex(e int) bool
 //@ func compiler/internal/analysis.hasSideEffectVisitor.Visit
 //@ property C05
 //@   requires v != nil && v.info != nil
@@ -90,4 +94,11 @@ package verifspec
 //@   ensures old(v.hasSideEffect) ==> v.hasSideEffect && w == nil
 //@   ensures typeis(node, "*go/ast.CallExpr") && hasSigType(key(asptr(ref(node), "go/ast.CallExpr").Fun)) ==> v.hasSideEffect
 //@   ensures typeis(node, "*go/ast.UnaryExpr") && asptr(ref(node), "go/ast.UnaryExpr").Op == 36 ==> v.hasSideEffect
-//@   ensures !old(v.hasSideEffect) && !typeis(node, "*go/ast.CallExpr") && !typeis(node, "*go/ast.UnaryExpr") ==> !v.hasSideEffect && w != nil
+//@   ensures !v.hasSideEffect ==> w != nil                  // an unmarked node never stops the walk: its children are visited
+// Initialisers that panic when they run are side effects too (finding F10, recorded in /verif/known_findings.txt): a
+// dereference, an integer division or remainder whose divisor is not a non-zero constant, a single-value type assertion,
+// an index into a slice, array or string.  The predicates say "this node is such an expression"; they are abstract.
+//@   ensures typeis(node, "*go/ast.StarExpr") && derefExpr(key(node)) ==> v.hasSideEffect
+//@   ensures typeis(node, "*go/ast.BinaryExpr") && mayPanicDiv(key(node)) ==> v.hasSideEffect
+//@   ensures typeis(node, "*go/ast.TypeAssertExpr") && singleValueAssert(key(node)) ==> v.hasSideEffect
+//@   ensures typeis(node, "*go/ast.IndexExpr") && mayPanicIndex(key(node)) ==> v.hasSideEffect
